@@ -99,6 +99,9 @@ var (
 
 func pick(r *hx.Rand, xs []string) string { return xs[r.Intn(len(xs))] }
 
+// Pick draws one of xs.
+func Pick(r *hx.Rand, xs []string) string { return pick(r, xs) }
+
 // GenIQ builds an incoming IQ. opt bits tune the rarer shapes.
 func GenIQ(r *hx.Rand, typ, id string, hasID bool, from, to, payload string) El {
 	e := El{Name: "iq", ID: id, HasID: hasID, Type: typ, IsIQ: true, Inner: payload, Payload: strings.Contains(payload, "<") && !strings.HasPrefix(payload, "<!--") && !strings.HasPrefix(payload, "<?")}
